@@ -1186,3 +1186,68 @@ func c08r13(rc *core.RC) {
 		rc.Unknown("encoder/marshaler-calls", token.NoPos, "found %d calls of user marshalers (8 confirmed)", n)
 	}
 }
+
+// ---- C08.R14 no user value is handed to fmt ----
+
+// fmt's %v family walks the value it is given through maps, slices, interfaces and struct values without any cycle
+// detection. A caller-supplied value of unknown shape (an empty interface, a reflect.Value) that reaches a fmt
+// formatting function turns the reported cycle into a fatal stack overflow inside the error path.
+func c08r14(rc *core.RC) {
+	p := rc.P
+	n := 0
+	for _, pk := range p.LibPkgs() {
+		for _, f := range pk.Syntax {
+			for _, d := range f.Decls {
+				fd, ok := d.(*ast.FuncDecl)
+				if !ok || fd.Body == nil {
+					continue
+				}
+				info := pk.TypesInfo
+				fn := p.FuncName(fd)
+				k := 0
+				ast.Inspect(fd.Body, func(m ast.Node) bool {
+					c, ok := m.(*ast.CallExpr)
+					if !ok {
+						return true
+					}
+					callee := core.Callee(info, c)
+					if callee == nil || callee.Pkg() == nil || callee.Pkg().Path() != "fmt" {
+						return true
+					}
+					sig, _ := callee.Type().(*types.Signature)
+					if sig == nil || !sig.Variadic() || c.Ellipsis.IsValid() {
+						return true
+					}
+					n++
+					first := sig.Params().Len() - 1
+					var bad []string
+					for i := first; i < len(c.Args); i++ {
+						tv, has := info.Types[c.Args[i]]
+						if !has || tv.Type == nil {
+							continue
+						}
+						t := types.Unalias(tv.Type)
+						if it, isIface := t.Underlying().(*types.Interface); isIface && it.NumMethods() == 0 {
+							bad = append(bad, core.Src(p.Fset, c.Args[i])+" (interface{})")
+						}
+						if t.String() == "reflect.Value" {
+							bad = append(bad, core.Src(p.Fset, c.Args[i])+" (reflect.Value)")
+						}
+					}
+					if len(bad) == 0 {
+						return true
+					}
+					k++
+					rc.Touch(fn)
+					rc.Bad(fmt.Sprintf("%s/fmt-call#%d no-user-value", fn, k), c.Pos(), "%s is given %s: fmt walks a value through maps, slices, interfaces and struct values without cycle detection, so formatting a caller-supplied value while reporting a cycle (or any other error) recurses until the stack is exhausted", core.FuncObjName(callee), strings.Join(bad, ", "))
+					return true
+				})
+			}
+		}
+	}
+	if n < 40 {
+		rc.Unknown("module/fmt-calls", token.NoPos, "found %d calls of fmt's variadic functions in the library (confirmed: more than 50)", n)
+		return
+	}
+	rc.OK("module/fmt-calls", token.NoPos, "%d calls of fmt's variadic formatting functions in the library: none is given an empty interface or a reflect.Value (arguments are strings, numbers, types, opcodes, errors)", n)
+}
